@@ -242,6 +242,11 @@ def judge_history(R, c, r, stats):
         e, g = o["exp"], o["got"]
         fm = max(norm(e["w12"][:3]), norm(g["w12"][:3]))
         where = f"history step {k} ({st['mode']}, bodies {st['pair']}, in-place move {'yes' if st.get('move') else 'no'})"
+        if o.get("moved_others"):
+            R.failure(f"{where}: the in-place update of the pose array of body {st['move'][0]} moved the world vertices of bodies "
+                      f"{o['moved_others']} as well (a body shares its pose array with another one after an earlier call)", c,
+                      site="RigidBody.express_in (call history)")
+            return
         if e["inter"] != g["inter"] and fm > 0:
             R.failure(f"{where}: intersection flag {g['inter']} on the live objects, {e['inter']} on cache-free copies of their state", c,
                       site="contact_forces (call history)")
